@@ -128,6 +128,34 @@ fn t_comments(rng: &mut Rng, text: &str, all: bool) -> String {
     out
 }
 
+/// the blank between a parenthesis and the word next to it removed (`TO (5) STEP` -> `TO(5)STEP`):
+/// a parenthesis ends a word by itself, so no blank is needed there (not modelled by canon)
+fn t_tight(rng: &mut Rng, text: &str, all: bool) -> String {
+    let chars: Vec<char> = text.chars().collect();
+    let ms = modes(&chars);
+    let mut out = String::new();
+    for i in 0..chars.len() {
+        let c = chars[i];
+        if ms[i] == M::Code && c == ' ' && i > 0 && i + 1 < chars.len() && ms[i - 1] == M::Code && ms[i + 1] == M::Code {
+            let (a, b) = (chars[i - 1], chars[i + 1]);
+            let drop = (a == ')' && b.is_ascii_alphabetic()) || (b == '(' && a.is_ascii_alphabetic() && {
+                // only after a keyword: `A (1)` would become the element or call A(1)
+                let mut j = i;
+                while j > 0 && (chars[j - 1].is_ascii_alphanumeric() || "$%&!#".contains(chars[j - 1])) {
+                    j -= 1;
+                }
+                let word: String = chars[j..i].iter().collect::<String>().to_uppercase();
+                ["TO", "STEP", "THEN", "IF", "ELSEIF", "WHILE", "UNTIL", "CASE", "IS", "PRINT", "AND", "OR", "NOT", "MOD"].contains(&word.as_str())
+            });
+            if drop && (all || rng.chance(1, 2)) {
+                continue;
+            }
+        }
+        out.push(c);
+    }
+    out
+}
+
 fn t_eol(text: &str, sep: &str) -> String {
     text.replace("\r\n", "\n").replace('\r', "\n").replace('\n', sep)
 }
@@ -268,6 +296,8 @@ pub fn run(args: &Args) {
         "PRINT USING \"##.#\"; 2.5\nPRINT 1, 2; 3\nPRINT\nLPRINT 4\n",
         "WHILE W < 2\nW = W + 1\nWEND\nDO WHILE V < 2\nV = V + 1\nLOOP\nDO\nU = U + 1\nLOOP UNTIL U >= 2\nPRINT W; V; U\n",
         "X = -1\nY = NOT X\nZ = (X + 2) * -3\nPRINT X; Y; Z; 7 MOD 3; 2 ^ 0 + 1\n",
+        "FOR I = 1 TO (5) STEP 2\nPRINT I\nNEXT\nFOR J = (1) TO 3 STEP (1)\nPRINT J\nNEXT\nFOR K = (2) TO (4)\nPRINT K\nNEXT\n",
+        "A = 2\nIF (A > 1) THEN PRINT 1\nIF ((A > 1) AND (A < 3)) THEN\nPRINT 2\nELSEIF (A) THEN\nPRINT 3\nEND IF\nWHILE (A < 4)\nA = A + 1\nWEND\nDO UNTIL (A > 5)\nA = A + 1\nLOOP\nPRINT (A) MOD (4); NOT (A)\nSELECT CASE (A)\nCASE (6)\nPRINT 6\nCASE IS > (7)\nPRINT 7\nEND SELECT\n",
     ] {
         programs.push(("statement-kinds".into(), t.to_string()));
     }
@@ -313,6 +343,9 @@ pub fn run(args: &Args) {
             ("eol-crlf", t_eol(src, "\r\n"), true),
             ("eol-cr", t_eol(src, "\r"), true),
             ("colon", t_colon(&mut rng, src, false), false),
+            // only on the hand-written programs, where every operand next to a keyword is a parenthesised
+            // expression as a whole (the parser asks for a blank after an operand that merely ends in one)
+            ("tight", if class.starts_with("statement-kinds") { t_tight(&mut rng, src, true) } else { src.clone() }, false),
             ("all", {
                 let a = t_comments(&mut rng, src, true);
                 let b = t_blank_lines(&mut rng, &a, true);
